@@ -179,6 +179,7 @@ type State struct {
 	LastNow   *smt.Term
 	NoSched   bool
 	NeedSched bool
+	PoolReuse bool
 	narrowCache map[int]int
 	facts    map[int]bool
 	factsVer int
@@ -212,7 +213,7 @@ func (st *State) fork() *State {
 	n := &State{
 		id: stateSeq, nextObj: st.nextObj, Cur: st.Cur,
 		Steps: st.Steps, SymBr: st.SymBr, PanicLbl: st.PanicLbl, Depth: st.Depth, Preempts: st.Preempts,
-		LastNow: st.LastNow, Epoch: st.Epoch, NoSched: st.NoSched, NeedSched: st.NeedSched,
+		LastNow: st.LastNow, Epoch: st.Epoch, NoSched: st.NoSched, NeedSched: st.NeedSched, PoolReuse: st.PoolReuse,
 	}
 	// the parent also needs a new id so that neither mutates shared objects in place
 	stateSeq++
